@@ -30,8 +30,8 @@ RULE = (
     "two markers each, and of the BUILTIN machine (assign / log / raise / emit with raising callables, lists nested through "
     "pure / choose / enqueueActions): the fault-free twin run yields the ordered call sites; each site (each pair in the "
     "thorough tier) is made to raise and the faulted run must equal the twin except for the remainder of the faulted action "
-    "list, with on_action_error notified once; (b) every plugin hook occurrence (all twelve hooks incl. on_done / on_error / service and lifecycle hooks, in whole-run scenarios too), the subscriber and the emit listener raising: "
-    "nothing may change; (c) ABORT family: an aborting error at the exit / transition / entry position (missing action, "
+    "list, with on_action_error notified once; (b) every plugin hook occurrence (all twelve hooks incl. on_done / on_error / service and lifecycle hooks, in whole-run scenarios too), the subscriber and each of three emit listeners (two under the event type, one under the wildcard) raising - the other listeners are still called: "
+    "nothing may change; (c) ABORT family: an aborting error at the exit / innermost-exit / transition / entry position (missing action, "
     "missing service, unresolvable target, async action on the sync engine) x source kinds (atomic with timer, compound with "
     "nested timers, region of a parallel state): configuration restored, error reported (raised / logged), timers of the exited "
     "states re-armed exactly once and firing later, next events handled; distinct_nontrivial = distinct (machine, state, event, "
@@ -237,10 +237,12 @@ def builtin_machine(rec):
         args["enqueue"]("mk:q1")
         args["enqueue"]("mk:q2")
 
-    def listener(ev):
-        rec.log.append(("LISTEN", ev.type))
-        if rec.fault is not None:
-            rec.fault("listener", ev.type)
+    def listener(name):
+        def f(ev):
+            rec.log.append(("LISTEN", f"{name}:{ev.type}"))
+            if rec.fault is not None:
+                rec.fault("listener", f"{name}:{ev.type}")
+        return f
 
     cfg = {
         "id": "m", "initial": "a", "context": {"k": 0},
@@ -278,7 +280,10 @@ def explore_builtin(tier) -> Dict[str, Any]:
             def run(sites_kind=None, targets=()):
                 h, listener = make()
                 d, _ = build(h, engine, hist)
-                d.interp.on("NOTE", listener)
+                # three listeners reached by one emit: two under the event type, one under the wildcard
+                d.interp.on("NOTE", listener("first"))
+                d.interp.on("NOTE", listener("second"))
+                d.interp.on("*", listener("wild"))
                 mark = d.rec.mark()
                 st = None
                 if sites_kind:
@@ -314,6 +319,10 @@ def explore_builtin(tier) -> Dict[str, Any]:
                         if kind in ("listener", "hook"):
                             if got != twin_markers or d2.observe() != twin_state:
                                 probs.append(("observer-fault-changed-run", f"markers {got} twin {twin_markers}"))
+                            heard = [e[1] for e in seg if e[0] == "LISTEN"]
+                            twin_heard = [e[1] for e in twin_seg if e[0] == "LISTEN"]
+                            if heard != twin_heard:
+                                probs.append(("observer-fault-silenced-other-listeners", f"listeners called {heard}, fault-free run {twin_heard}"))
                         else:
                             # which top-level list does the fault belong to?
                             if kind == "action":
@@ -393,7 +402,9 @@ async def async_action(interp, ctx, ev, ad):  # pragma: no cover - must never ru
 def abort_cases() -> List[tuple]:
     out = []
     for shape in ("atomic", "compound", "region"):
-        for position in ("exit", "transition", "entry", "entry-child", "service", "target"):
+        for position in ("exit", "exit-child", "transition", "entry", "entry-child", "service", "target"):
+            if position == "exit-child" and shape == "atomic":
+                continue
             for fault in ("missing-action", "async-action"):
                 if position in ("service", "target") and fault != "missing-action":
                     continue
@@ -407,8 +418,12 @@ def abort_cfg(shape: str, position: str, fault: str) -> Dict[str, Any]:
     tr_actions: List[Any] = ["mk:tr"]
     dst: Dict[str, Any] = {"entry": ["mk:en_dst"], "on": {"BACK": "#m.src"}}
     target = "#m.dst"
+    child_exit = ["mk:ex_s1"]
     if position == "exit":
         src_exit = ["mk:ex_src", bad, "mk:ex_src2"]
+    elif position == "exit-child":
+        # the abort strikes in the exit list of the innermost state: its ancestors (and their timers) have not been touched
+        child_exit = ["mk:ex_s1", bad]
     elif position == "transition":
         tr_actions = ["mk:tr", bad, "mk:tr2"]
     elif position == "entry":
@@ -427,7 +442,9 @@ def abort_cfg(shape: str, position: str, fault: str) -> Dict[str, Any]:
     elif shape == "compound":
         src = {"entry": ["mk:en_src"], "exit": src_exit, "initial": "s1",
                "after": {"500": {"target": "#m.timeout", "actions": ["mk:after_src"]}},
-               "states": {"s1": {"after": {"250": {"actions": ["mk:after_s1"]}}, "exit": ["mk:ex_s1"]}},
+               "states": {"s1": {"after": {"250": {"actions": ["mk:after_s1"]}}, "exit": child_exit},
+                          # (a history child: leaving src records history, an aborted leave must take that back)
+                          "hist": {"type": "history"}},
                "on": {"GO": go, "NOP": {"actions": ["mk:nop"]}}}
         states = {"src": src}
     else:
@@ -435,7 +452,7 @@ def abort_cfg(shape: str, position: str, fault: str) -> Dict[str, Any]:
                "states": {
                    "r1": {"initial": "x", "after": {"500": {"target": "#m.timeout", "actions": ["mk:after_src"]}},
                           "states": {"x": {"on": {"GO": go}}}},
-                   "r2": {"initial": "y", "states": {"y": {"after": {"250": {"actions": ["mk:after_s1"]}}, "exit": ["mk:ex_s1"]}}},
+                   "r2": {"initial": "y", "states": {"y": {"after": {"250": {"actions": ["mk:after_s1"]}}, "exit": child_exit}}},
                },
                "on": {"NOP": {"actions": ["mk:nop"]}}}
         states = {"src": src}
@@ -474,6 +491,8 @@ def explore_abort() -> Dict[str, Any]:
                 after = d.observe()
                 if after[0] != before[0]:
                     probs.append(("configuration-not-restored", f"{before[0]} -> {after[0]}"))
+                if after[1] != before[1]:
+                    probs.append(("history-not-restored", f"history memory {before[1]} -> {after[1]}"))
                 if after[2] != "running":
                     probs.append(("status-changed", f"{after[2]}"))
                 if engine == "sync":
@@ -491,14 +510,16 @@ def explore_abort() -> Dict[str, Any]:
                     probs.append(("next-event-not-handled", f"{perr!r}"))
                 # timers re-armed: the 250 ms and 500 ms timers must each fire exactly once, later
                 m3 = d.rec.mark()
-                d.advance(0.625)  # re-armed deadlines: 0.375 and 0.625; a second round is due from 0.875 on
+                # re-armed deadlines: 0.375 and 0.625; a second round is due from 0.875 on.  (exit-child: the source's own
+                # timer was never torn down and stays due at 0.5; its attempt aborts again and re-arms the child for 0.75)
+                d.advance(0.5 if position == "exit-child" else 0.625)
                 fired = [e[1] for e in d.rec.since(m3) if e[0] == "A" and e[1].startswith("mk:after")]
                 want = ["mk:after_src"] if shape == "atomic" else ["mk:after_s1", "mk:after_src"]
-                if position == "exit":
+                if position in ("exit", "exit-child"):
                     # the source can never be left (its exit list aborts), so the 500 ms transition aborts
                     # too: the evidence that its timer was re-armed is the exit attempt it makes when it fires
                     want = [w for w in want if w != "mk:after_src"]
-                    attempts = [e for e in d.rec.since(m3) if e[0] == "A" and e[1] == "mk:ex_src"]
+                    attempts = [e for e in d.rec.since(m3) if e[0] == "A" and e[1] == ("mk:ex_src" if position == "exit" else "mk:ex_s1")]
                     if len(attempts) != 1:
                         probs.append(("timers-not-re-armed-exactly-once", f"the source's own delayed transition was attempted {len(attempts)} times after the abort"))
                 if sorted(fired) != sorted(want):
